@@ -8,7 +8,9 @@ use std::collections::BTreeMap;
 pub fn case(prop: WorldProp, k: u64, seed: u64, thorough: bool) -> WorldCase {
     match prop {
         WorldProp::C11 => {
-            if k % 4 == 3 {
+            if k < c11_enumerated() {
+                gen11_enumerated(k, mix(seed, "C11e", k))
+            } else if k % 4 == 3 {
                 gen11_interleave(mix(seed, "C11i", k))
             } else {
                 gen11(mix(seed, "C11", k))
@@ -392,6 +394,8 @@ fn gen11(seed: u64) -> WorldCase {
     let nops = 6 + r.usize(30);
     let mut last_mutation = false;
     let mut texts: Vec<String> = vec![];
+    // (context, name) -> current text, so that patterns can pick variables a program reads
+    let mut srcs: BTreeMap<(usize, String), String> = BTreeMap::new();
     while ops.len() < nops {
         let t = r.usize(nclients);
         let my_binds: Vec<usize> = st.binds.iter().filter(|(_, o)| *o == t).map(|(b, _)| *b).collect();
@@ -416,10 +420,25 @@ fn gen11(seed: u64) -> WorldCase {
                 let src = if !dup_from.is_empty() && r.chance(1, 6) {
                     let t = (*r.pick(&dup_from)).clone();
                     near_dup(&t, &mut r)
+                } else if idx <= 1 && r.chance(1, 3) {
+                    // a program that is just a constant (a named constant other programs
+                    // read; replaced later like any other program)
+                    value(&mut r, 1).render()
+                } else if !refs.is_empty() && r.chance(1, 5) {
+                    // a reader of lower-numbered programs from inside call and macro arguments
+                    let a = r.pick(&refs).clone();
+                    let b2 = r.pick(&refs).clone();
+                    match r.usize(4) {
+                        0 => format!("[1, 2].map(v, [v, {}])", a),
+                        1 => format!("string({}) + string({})", a, b2),
+                        2 => format!("[{}].filter(v, v == {})", a, b2),
+                        _ => format!("size([{}, {}])", a, b2),
+                    }
                 } else {
                     gen_src(&mut r, &refs, clock)
                 };
                 texts.push(src.clone());
+                srcs.insert((*c, name.clone()), src.clone());
                 if !names.contains(&name) {
                     names.push(name.clone());
                 }
@@ -528,15 +547,40 @@ fn gen11(seed: u64) -> WorldCase {
                         st.next_b += 1;
                         st.binds.push((to, t));
                         ops.push(Op { t, k: OpK::CloneB { from: *b, to } });
-                        let rounds = r.usize(3);
-                        for _ in 0..rounds {
-                            let name = r.pick(&VARS).to_string();
-                            ops.push(Op { t, k: OpK::Bind { b: *b, name: name.clone(), val: value(&mut r, 2) } });
-                            ops.push(Op { t, k: OpK::Bind { b: to, name, val: value(&mut r, 2) } });
-                        }
                         let (c, names) = &st.ctxs[r.usize(st.ctxs.len())];
-                        if !names.is_empty() {
-                            let name = r.pick(names).clone();
+                        let exec_name = if names.is_empty() { None } else { Some(r.pick(names).clone()) };
+                        // the variables the executed program can read, directly or through
+                        // the programs it references
+                        let mut read: Vec<String> = vec![];
+                        if let Some(n) = &exec_name {
+                            let mut todo = vec![n.clone()];
+                            let mut seen: Vec<String> = vec![];
+                            while let Some(p) = todo.pop() {
+                                if seen.contains(&p) {
+                                    continue;
+                                }
+                                seen.push(p.clone());
+                                if let Some(s) = srcs.get(&(*c, p)) {
+                                    for i in super::idents(s) {
+                                        if VARS.contains(&i.as_str()) && !read.contains(&i) {
+                                            read.push(i.clone());
+                                        }
+                                        if PROGS.contains(&i.as_str()) {
+                                            todo.push(i);
+                                        }
+                                    }
+                                }
+                            }
+                        }
+                        let rounds = r.usize(3);
+                        for q in 0..rounds {
+                            let name = if !read.is_empty() && r.chance(3, 4) { r.pick(&read).clone() } else { r.pick(&VARS).to_string() };
+                            // different values on the two sides (ints apart, or any value)
+                            let (v1, v2) = if r.chance(1, 2) { (V::Int(1000 + q as i64), V::Int(2000 + q as i64)) } else { (value(&mut r, 2), value(&mut r, 2)) };
+                            ops.push(Op { t, k: OpK::Bind { b: *b, name: name.clone(), val: v1 } });
+                            ops.push(Op { t, k: OpK::Bind { b: to, name, val: v2 } });
+                        }
+                        if let Some(name) = exec_name {
                             for bb in [*b, to, *b] {
                                 ops.push(Op { t, k: OpK::Exec { c: *c, name: name.clone(), b: bb, times: 1, keys: r.bytes16(), minimal: r.chance(1, 2) } });
                             }
@@ -610,6 +654,187 @@ fn gen11(seed: u64) -> WorldCase {
         ops.push(Op { t, k: OpK::Exec { c, name, b, times: 2, keys: r.bytes16(), minimal: r.chance(1, 2) } });
     }
     WorldCase { world: "C11".into(), clients, start_ns: instant(&mut r), label: "history".into(), ops }
+}
+
+/// C11, scripted history families: the patterns that carried state in the seeded changes,
+/// each in a few variants; decided by the same oracles as the random histories (fresh twin,
+/// repetition, frozen model).
+pub fn c11_enumerated() -> u64 {
+    (C11_FAMILIES * C11_VARIANTS) as u64
+}
+const C11_FAMILIES: usize = 8;
+const C11_VARIANTS: usize = 12;
+
+fn gen11_enumerated(k: u64, seed: u64) -> WorldCase {
+    let mut r = Rng::new(seed);
+    let fam = (k as usize) / C11_VARIANTS;
+    let var = (k as usize) % C11_VARIANTS;
+    let clients = vec![r.bytes16(), r.bytes16()];
+    let mut ops: Vec<Op> = vec![Op { t: 0, k: OpK::NewCtx { c: 0 } }, Op { t: 0, k: OpK::NewB { b: 0 } }];
+    let add = |ops: &mut Vec<Op>, c: usize, name: &str, src: &str| ops.push(Op { t: 0, k: OpK::Add { c, name: name.to_string(), src: src.to_string(), must_read: false } });
+    let bind = |ops: &mut Vec<Op>, b: usize, name: &str, val: V| ops.push(Op { t: 0, k: OpK::Bind { b, name: name.to_string(), val } });
+    let exec = |ops: &mut Vec<Op>, r: &mut Rng, c: usize, name: &str, b: usize, times: u8| ops.push(Op { t: 0, k: OpK::Exec { c, name: name.to_string(), b, times, keys: r.bytes16(), minimal: false } });
+    // readers of another program, by position of the reference
+    let readers = ["[p0, 1]", "p0 + p0", "[1, 2].map(v, [v, p0])", "string(p0) + '!'", "[p0].filter(v, v == p0)", "coalesce(p0, 'none')"];
+    let reader = readers[var % readers.len()];
+    let label;
+    match fam {
+        0 => {
+            // sibling binding sets that diverge in the same number of steps
+            label = "sibling-bindings";
+            add(&mut ops, 0, "p0", ["x0", "[x0, x1]", "x0 + 1"][var % 3]);
+            add(&mut ops, 0, "p1", reader);
+            if var >= 6 {
+                add(&mut ops, 0, "p2", "[p1, p0]");
+            }
+            bind(&mut ops, 0, "x0", V::Int(1));
+            bind(&mut ops, 0, "x1", V::s("one"));
+            ops.push(Op { t: 0, k: OpK::CloneB { from: 0, to: 1 } });
+            for q in 0..(1 + var % 3) {
+                bind(&mut ops, 0, "x0", V::Int(10 + q as i64));
+                bind(&mut ops, 1, "x0", V::Int(20 + q as i64));
+            }
+            let top = if var >= 6 { "p2" } else { "p1" };
+            for b in [0usize, 1, 0, 1] {
+                exec(&mut ops, &mut r, 0, top, b, 1);
+            }
+        }
+        1 => {
+            // sibling contexts that diverge in the same number of steps
+            label = "sibling-contexts";
+            add(&mut ops, 0, "p0", "'first'");
+            add(&mut ops, 0, "p1", reader);
+            bind(&mut ops, 0, "x0", V::Int(1));
+            exec(&mut ops, &mut r, 0, "p1", 0, 1);
+            ops.push(Op { t: 0, k: OpK::CloneCtx { from: 0, to: 1 } });
+            for q in 0..(1 + var % 3) {
+                add(&mut ops, 0, "p0", &format!("'left{}'", q));
+                add(&mut ops, 1, "p0", &format!("'right{}'", q));
+            }
+            for c in [0usize, 1, 0, 1] {
+                exec(&mut ops, &mut r, c, "p1", 0, 1);
+            }
+        }
+        2 => {
+            // a constant program, a reader added after it, the constant replaced or shadowed
+            label = "constant-program-replaced";
+            add(&mut ops, 0, "p0", ["3", "'rate'", "[1, 2]"][var % 3]);
+            add(&mut ops, 0, "p1", reader);
+            bind(&mut ops, 0, "x0", V::Int(1));
+            exec(&mut ops, &mut r, 0, "p1", 0, 1);
+            if var % 2 == 0 {
+                add(&mut ops, 0, "p0", ["4", "'other'", "[7]"][var % 3]);
+            } else {
+                bind(&mut ops, 0, "p0", V::s("shadowing parameter"));
+            }
+            exec(&mut ops, &mut r, 0, "p1", 0, 2);
+            // the same texts added in the other order in a second context
+            ops.push(Op { t: 0, k: OpK::NewCtx { c: 1 } });
+            add(&mut ops, 1, "p1", reader);
+            add(&mut ops, 1, "p0", "5");
+            exec(&mut ops, &mut r, 1, "p1", 0, 1);
+        }
+        3 => {
+            // failures first: a failed compile, a missing program, an exec into the depth limit
+            label = "failures-then-success";
+            add(&mut ops, 0, "p0", "x0");
+            add(&mut ops, 0, "p1", reader);
+            add(&mut ops, 0, "cyc", ["cyc + 1", "[1].map(v, cyc)[0]", "coalesce(cyc, 1)", "f'{cyc}'"][var % 4]);
+            bind(&mut ops, 0, "x0", V::Int(5));
+            ops.push(Op { t: 0, k: OpK::AddBad { c: 0, src: "1 +".into(), free: var % 2 == 0, over: if var % 3 == 0 { Some("p0".into()) } else { None } } });
+            exec(&mut ops, &mut r, 0, "ghost", 0, 1);
+            exec(&mut ops, &mut r, 0, "cyc", 0, [1u8, 2, 17, 33][var % 4]);
+            exec(&mut ops, &mut r, 0, "p1", 0, 2);
+            exec(&mut ops, &mut r, 0, "cyc", 0, 1);
+            exec(&mut ops, &mut r, 0, "p0", 0, 1);
+        }
+        4 => {
+            // texts that differ only in white space inside a literal / between tokens
+            label = "near-duplicate-texts";
+            let a = ["'a b' + x0", "['x  y', x0]", "x0 == 'p q'"][var % 3];
+            let b2 = a.replace("a b", "a  b").replace("x  y", "x y").replace("p q", "p  q");
+            let c2 = a.replace(", ", ",   ").replace(" + ", "  +  ");
+            add(&mut ops, 0, "p0", a);
+            bind(&mut ops, 0, "x0", V::s("p q"));
+            exec(&mut ops, &mut r, 0, "p0", 0, 1);
+            add(&mut ops, 0, "p1", &b2);
+            add(&mut ops, 0, "p2", &c2);
+            for n in ["p1", "p2", "p0"] {
+                exec(&mut ops, &mut r, 0, n, 0, 1);
+            }
+            ops.push(Op { t: 0, k: OpK::NewCtx { c: 1 } });
+            add(&mut ops, 1, "p0", &b2);
+            exec(&mut ops, &mut r, 1, "p0", 0, 1);
+        }
+        5 => {
+            // many distinct regular expressions on one thread, then the first ones again
+            label = "many-patterns";
+            bind(&mut ops, 0, "x0", V::s("hello k1zz 10"));
+            let n = 17 + var * 2;
+            // distinct patterns, each with its own visible effect on the subject: every
+            // substring of 1..3 letters/digits of it
+            let subject = "hello k1zz 10";
+            let mut pats: Vec<String> = vec!["l+".to_string(), "[0-9]".to_string()];
+            let sb: Vec<char> = subject.chars().collect();
+            for len in 1..=3usize {
+                for s in 0..sb.len().saturating_sub(len - 1) {
+                    let t: String = sb[s..s + len].iter().collect();
+                    if t.chars().all(|c| c.is_ascii_alphanumeric()) && !pats.contains(&t) {
+                        pats.push(t);
+                    }
+                }
+            }
+            pats.truncate(n.min(pats.len()));
+            add(&mut ops, 0, "p0", &format!("x0.matchReplace('{}', '-')", pats[0]));
+            add(&mut ops, 0, "p1", &format!("x0.matchReplace('{}', '-')", pats[1]));
+            exec(&mut ops, &mut r, 0, "p0", 0, 1);
+            exec(&mut ops, &mut r, 0, "p1", 0, 1);
+            let list = pats.iter().map(|p| format!("'{}'", p)).collect::<Vec<_>>().join(", ");
+            add(&mut ops, 0, "p2", &format!("[{}].map(p, x0.{})", list, ["matches(p)", "matchReplace(p, '+')", "matchCaptures(p)"][var % 3]));
+            exec(&mut ops, &mut r, 0, "p2", 0, 1);
+            exec(&mut ops, &mut r, 0, "p0", 0, 1);
+            exec(&mut ops, &mut r, 0, "p1", 0, 1);
+        }
+        6 => {
+            // a macro that filters out elements, then the loop name read by a later program
+            label = "loop-name-after-macro";
+            let mac = ["[1, 2, 3].map(v, v > 1, v)", "[1, 2, 3].filter(v, v > 1)", "[1, 2, 3].map(v, v > 5, v)", "[1, 0].all(v, 10 / v > 1) || true"][var % 4];
+            add(&mut ops, 0, "p0", &mac.replace("[1, 2, 3]", if var >= 6 { "x1" } else { "[1, 2, 3]" }));
+            add(&mut ops, 0, "p1", "has(v) ? v : 'free'");
+            add(&mut ops, 0, "p2", "[p0, has(v)]");
+            bind(&mut ops, 0, "x1", V::List(vec![V::Int(1), V::Int(2), V::Int(3)]));
+            for n in ["p0", "p1", "p2", "p1"] {
+                exec(&mut ops, &mut r, 0, n, 0, 1);
+            }
+            ops.push(Op { t: 0, k: OpK::CloneB { from: 0, to: 1 } });
+            exec(&mut ops, &mut r, 0, "p1", 1, 1);
+        }
+        _ => {
+            // a Program compiled once and placed in two contexts, executed with different
+            // bindings, replaced in one of them
+            label = "shared-program";
+            let src = ["f'hello {x0}'", "[x0, 1]", "x0 + x0", "has(x0) ? x0 : 'none'"][var % 4];
+            ops.push(Op { t: 0, k: OpK::AddShared { c: 0, name: "p0".into(), src: src.into() } });
+            ops.push(Op { t: 0, k: OpK::CloneCtx { from: 0, to: 1 } });
+            ops.push(Op { t: 0, k: OpK::AddShared { c: 1, name: "p1".into(), src: src.into() } });
+            ops.push(Op { t: 0, k: OpK::NewB { b: 1 } });
+            bind(&mut ops, 0, "x0", V::s("first"));
+            bind(&mut ops, 1, "x0", V::s("second"));
+            for (c, n, b) in [(0usize, "p0", 0usize), (1, "p0", 1), (1, "p1", 0), (0, "p0", 1)] {
+                exec(&mut ops, &mut r, c, n, b, 1);
+            }
+            add(&mut ops, 1, "p0", "'replaced'");
+            exec(&mut ops, &mut r, 0, "p0", 1, 1);
+            exec(&mut ops, &mut r, 1, "p0", 1, 1);
+        }
+    }
+    // half of the variants run the whole history on the second client
+    if var % 2 == 1 {
+        for o in ops.iter_mut() {
+            o.t = 1;
+        }
+    }
+    WorldCase { world: "C11".into(), clients, start_ns: instant(&mut r), label: label.into(), ops }
 }
 
 /// C11, executions in flight at once: m clients, each with its own clone of one context and
